@@ -146,6 +146,7 @@ def merge_results(results: list[dict]) -> dict:
         "inconclusive": [],
         "extra": {},
         "exhaustive": all(r.get("exhaustive") for r in results) if results else False,
+        "reached": None,
     }
     for r in results:
         m["evaluations"] += r["evaluations"]
@@ -161,7 +162,29 @@ def merge_results(results: list[dict]) -> dict:
                 m["inconclusive"].append(i)
         for k, v in r.get("extra", {}).items():
             m["extra"].setdefault(k, v)
+        if r.get("reached") is not None:
+            m["reached"] = (m["reached"] or set()) | set(r["reached"])
     return m
+
+
+def anchor_reach(prop: str, reached) -> dict | None:
+    """Functions of the property's anchor files (properties.jsonl) that the workload entered."""
+    if reached is None:
+        return None
+    files = []
+    try:
+        with open(os.path.join(VERIF, "properties.jsonl")) as f:
+            for line in f:
+                p = json.loads(line)
+                if p["id"] == prop:
+                    files = [x[len("src/"):] if x.startswith("src/") else x for x in p["anchors"].get("files", [])]
+    except OSError:
+        return None
+    out = {}
+    for fl in files:
+        names = sorted(r.split("::", 1)[1] for r in reached if r.split("::", 1)[0] == fl)
+        out[fl] = {"functions_entered": len(names), "names": names[:40]}
+    return out
 
 
 def load_known(prop: str) -> dict[str, dict]:
@@ -209,6 +232,9 @@ def finish(prop: str, tier: str, seed: int, level: str, rule: str, merged: dict,
     for d in deciding or []:
         if obs.get(d, 0) == 0:
             inconclusive.append(f"deciding monitor counter '{d}' is zero")
+    _ar = anchor_reach(prop, merged.get("reached"))
+    if _ar and not any(v["functions_entered"] for v in _ar.values()):
+        inconclusive.append("no function of the property's anchor files was entered by the workload")
     if len(merged["shapes"]) < min_nontrivial:
         inconclusive.append(f"only {len(merged['shapes'])} distinct non-trivial cases")
     if code == 0 and inconclusive:
@@ -225,6 +251,10 @@ def finish(prop: str, tier: str, seed: int, level: str, rule: str, merged: dict,
         "inconclusive": inconclusive,
         "verdict": {0: "held on what was observed", 1: "violated", 2: "inconclusive"}[code],
     }
+    ar = anchor_reach(prop, merged.get("reached"))
+    if ar is not None:
+        coverage["anchor_code_reached"] = ar
+        coverage["repository_functions_entered"] = len(merged["reached"])
     coverage.update(merged.get("extra", {}))
     ev = {
         "property_id": prop,
